@@ -111,14 +111,14 @@ pub fn case_strategy(max_ops: usize, rebuild: bool) -> BoxedStrategy<Case> {
     // without compression SDDs (and the library's structural comparison of nodes) blow up exponentially,
     // so that mode is explored on <= 4 variables and shorter histories: a case must never take minutes
     let on = (
-        vtree_case_strategy(6, false),
+        vtree_case_strategy(8, false),
         Just(true),
-        proptest::collection::vec(sop_strategy(true, rebuild), 0..=max_ops),
+        proptest::collection::vec(sop_strategy_ext(true, rebuild, true), 0..=max_ops),
     );
     let off = (
         vtree_case_strategy(4, false),
         Just(false),
-        proptest::collection::vec(sop_strategy(true, rebuild), 0..=max_ops.min(24)),
+        proptest::collection::vec(sop_strategy_ext(true, rebuild, true), 0..=max_ops.min(24)),
     );
     (
         prop_oneof![3 => on.boxed(), 1 => off.boxed()],
@@ -138,7 +138,7 @@ pub fn case_strategy(max_ops: usize, rebuild: bool) -> BoxedStrategy<Case> {
 impl SubCheckT for Hist {
     type Case = Case;
     const NAME: &'static str = "history";
-    const RULE: &'static str = "random vtree over 1..6 variables (right-linear, left-linear, balanced, random splits; random leaf order) x compression on (<=6 variables) / off (<=4 variables, <=24 ops) x unique tables default or 1..32 slots x <=40 operations (literals, not, and, or, xor, iff, ite, condition, exists, compose): every returned SDD is read element by element (prime/sub pairs, binary nodes, complement bits) into a truth table and compared with the oracle; the pool is re-read at 3 checkpoints and at the end. Non-trivial: and/or applications with a decision-node operand and a non-constant second operand in >=2 of the four vtree relations (same node, left descendant, right descendant, independent), the relation being computed from the vtree shape";
+    const RULE: &'static str = "random vtree over 1..8 variables (right-linear, left-linear, balanced, random splits; random leaf order) x compression on (<=8 variables) / off (<=4 variables, <=24 ops) x unique tables default or 1..32 slots x <=40 operations (literals, not, and, or, xor, iff, ite, condition, exists, compose, and dense functions given by a whole random truth table and built by Shannon expansion, so that decision nodes with >20 elements occur): every returned SDD is read element by element (prime/sub pairs, binary nodes, complement bits) into a truth table and compared with the oracle; the pool is re-read at 3 checkpoints and at the end. Non-trivial: and/or applications with a decision-node operand and a non-constant second operand in >=2 of the four vtree relations (same node, left descendant, right descendant, independent), the relation being computed from the vtree shape";
     fn cases(tier: Tier) -> u32 {
         tier.pick(20_000, 250_000)
     }
@@ -156,7 +156,7 @@ pub fn property() -> Property {
         subs: vec![sub::<Hist>()],
         fuzz: vec![FuzzSpec { target: "sdd_ops", runs: 40000, max_len: 300 }],
         assumptions: vec![
-            "functions over <= 6 variables, <= 40 operations per history",
+            "functions over <= 8 variables, <= 40 operations per history",
             "the SDD walker reads SddPtr variants, BinarySDD accessors and SddOr::iter(); truth-table oracle as in C01",
         ],
         nt_floor_percent: 10,
